@@ -54,6 +54,44 @@ def dimension_of(fn: FuncInfo, e: ast.expr, assigns, depth=0) -> str:
     return "?"
 
 
+def _from_stack_input(e: ast.expr, assigns) -> bool:
+    """Is ``e`` a local bound (by unpacking) to the result of ``self._get_template_and_mask_input(...)`` (the K*T candidate stacks)?"""
+    if not isinstance(e, ast.Name):
+        return False
+    vals = [v for v in assigns.get("*" + e.id, []) if not (isinstance(v, ast.List) and len(v.elts) == 1 and isinstance(v.elts[0], ast.Name) and v.elts[0].id == e.id)]
+    return bool(vals) and all(isinstance(v, ast.Call) and isinstance(v.func, ast.Attribute) and v.func.attr == "_get_template_and_mask_input" for v in vals)
+
+
+def _with_unpacks(fn: FuncInfo, assigns: dict) -> dict:
+    """local_assignments plus, under the key '*name', the right-hand sides of tuple-unpacking assignments that bind ``name``."""
+    out = dict(assigns)
+    for n in walk_no_nested(fn.node):
+        if isinstance(n, ast.Assign) and isinstance(n.targets[0], ast.Tuple):
+            for t in n.targets[0].elts:
+                if isinstance(t, ast.Name):
+                    out.setdefault("*" + t.id, []).append(n.value)
+    for k, v in assigns.items():
+        if "*" + k in out:
+            out["*" + k] = out["*" + k] + list(v)
+    return out
+
+
+def _is_raw_argmax(e: ast.expr, assigns) -> bool:
+    """``e`` is (int of) a local bound to an arg-max call: the flat candidate index itself."""
+    if isinstance(e, ast.Call) and dotted(e.func) == "int" and len(e.args) == 1:
+        e = e.args[0]
+    if not isinstance(e, ast.Name):
+        return False
+    vals = assigns.get(e.id, [])
+
+    def am(v):
+        if isinstance(v, ast.Call) and dotted(v.func) == "int" and len(v.args) == 1:
+            v = v.args[0]
+        return isinstance(v, ast.Call) and (dotted(v.func) or "").split(".")[-1] in ("argmax", "nanargmax")
+
+    return bool(vals) and all(am(v) for v in vals)
+
+
 def denotes_T(fn: FuncInfo, e: ast.expr, assigns) -> tuple[bool, str]:
     """Does ``e`` denote the number of templates T of the model built/used in ``fn``?"""
     txt = norm_src(e)
@@ -209,7 +247,7 @@ def decoder_clause(model, rep, funcs):
     # (b) RotationImplemented.fit
     f = funcs.get(AB + "RotationImplemented.fit")
     if f is not None:
-        assigns = local_assignments(f)
+        assigns = _with_unpacks(f, local_assignments(f))
         rep.instance("S7.decode", f.loc())
         loops = [n for n in walk_no_nested(f.node) if isinstance(n, ast.For) and isinstance(n.iter, ast.Call) and dotted(n.iter.func) == "zip"]
         ok = None
@@ -218,7 +256,7 @@ def decoder_clause(model, rep, funcs):
             dims = [dimension_of(f, a, assigns) for a in lp.iter.args]
             names = [norm_src(a) for a in lp.iter.args]
             # stacks returned by _get_template_and_mask_input have K*T entries
-            full = ["RT" if n_ in ("_template", "_mask") else d for n_, d in zip(names, dims)]
+            full = ["RT" if _from_stack_input(a_, assigns) else d for a_, d in zip(lp.iter.args, dims)]
             if all(d == "RT" for d in full):
                 ok, det = True, f"zip over {names}: all of length K*T"
             else:
@@ -236,7 +274,7 @@ def decoder_clause(model, rep, funcs):
                 if q is not None and isinstance(q, ast.Subscript):
                     base_dim = dimension_of(f, q.value, assigns)
                     if base_dim == "RT":
-                        okq, detq = (norm_src(q.slice) in ("iopt", "int(iopt)")), f"{norm_src(q)} on the K*T expansion"
+                        okq, detq = _is_raw_argmax(q.slice, assigns), f"{norm_src(q)} on the K*T expansion"
                     else:
                         okq, detq = _is_major_decode(f, q.slice, assigns)
                         if base_dim != "R":
@@ -348,7 +386,7 @@ def _is_major_decode(fn, idx: ast.expr, assigns):
                 if e.id in names and len(n.value.args) == 2:
                     ok, why = denotes_T(fn, n.value.args[1], assigns)
                     return (ok and names.index(e.id) == 0), f"{e.id} from {norm_src(n)}"
-        return None, f"index `{e.id}` is the raw flat index" if e.id in ("iopt",) else f"index `{e.id}`"
+        return None, f"index `{e.id}` is the raw flat index" if _is_raw_argmax(e, assigns) else f"index `{e.id}`"
     return None, f"index `{norm_src(e)}`"
 
 
@@ -359,8 +397,9 @@ def rank_clause(model, rep, funcs):
         return
     assigns = local_assignments(f)
     rets = [n for n in walk_no_nested(f.node) if isinstance(n, ast.Return) and n.value is not None]
+    retnames = {r.value.id for r in rets if isinstance(r.value, ast.Name)}
     for n in walk_no_nested(f.node):
-        if isinstance(n, ast.Assign) and isinstance(n.targets[0], ast.Name) and n.targets[0].id == "quats":
+        if isinstance(n, ast.Assign) and isinstance(n.targets[0], ast.Name) and n.targets[0].id in retnames:
             v = n.value
             rep.instance("A.rank", f.loc(n))
             ok, det = _rank2(v)
@@ -368,7 +407,7 @@ def rank_clause(model, rep, funcs):
                    clause="4 rotation set")
     rep.floor("A.rank", 3, "(Rotation / list of Rotation or ranges / None paths)")
     for r in rets:
-        okr = norm_src(r.value) in ("quats",) or _rank2(r.value)[0]
+        okr = (isinstance(r.value, ast.Name) and r.value.id in assigns) or _rank2(r.value)[0]
         rep.ob("A", f.anchor, "normalize_rotations returns the normalised array", bool(okr), norm_src(r.value), node=r, fn=f, clause="4 rotation set")
     # RotationImplemented.__init__ takes N from shape[0]
     g = funcs.get(AB + "RotationImplemented.__init__")
